@@ -4,6 +4,8 @@ entry point per process, classification of outcomes, the set-order seam."""
 from __future__ import annotations
 
 import functools
+import json
+import os
 import itertools
 
 
@@ -58,7 +60,23 @@ def try_parse(kind, text):
     except RecursionError as e:
         return ('internal:RecursionError', e)
     except Exception as e:  # noqa: BLE001
+        if _REJECT_LOG:
+            _log_rejected(kind, text, e)
         return (outcome_class(e), e)
+
+
+# audit aid (tools/vacuity_audit.py): with HPLMC_LOG_REJECTED=<dir> every rejected text is logged, so that
+# hand-written corpus texts that were meant to be valid but are silently skipped can be found
+_REJECT_LOG = os.environ.get('HPLMC_LOG_REJECTED')
+_rejected_seen = set()
+
+
+def _log_rejected(kind, text, e):
+    if text in _rejected_seen or len(_rejected_seen) > 200000:
+        return
+    _rejected_seen.add(text)
+    with open(os.path.join(_REJECT_LOG, f'rej.{os.getpid()}'), 'a') as f:
+        f.write(json.dumps([kind, text, type(e).__name__]) + '\n')
 
 
 # ---------------------------------------------------------------------------
